@@ -59,9 +59,27 @@ impl BasicAnnotate for GTok {
         self.nan.set(val)
     }
 }
+/// Rendezvous between user callbacks of different threads (one slot per language, explorations of different
+/// languages run side by side): when a thread program arms it, the first `Replace::replace` call of each thread
+/// waits — through `blocked` points — until every thread of the program has reached its own. User code that
+/// synchronises inside a callback is legitimate; a library lock held across the callback turns it into a deadlock.
+static RV_ARRIVED: [std::sync::atomic::AtomicUsize; 7] = [const { std::sync::atomic::AtomicUsize::new(0) }; 7];
+thread_local! {
+    static RV: Cell<Option<(usize, usize)>> = const { Cell::new(None) }; // (slot, threads expected)
+}
+fn rendezvous() {
+    if let Some((slot, want)) = RV.with(|r| r.take()) {
+        use std::sync::atomic::Ordering::SeqCst;
+        RV_ARRIVED[slot].fetch_add(1, SeqCst);
+        while RV_ARRIVED[slot].load(SeqCst) < want {
+            sched::blocked();
+        }
+    }
+}
 impl Replace for GTok {
     fn replace<I: Iterator<Item = Self>>(replaced: I, data: String) -> Self {
         sched::point();
+        rendezvous();
         let n = replaced.count();
         GTok::new(&format!("{data}<{n}>"))
     }
@@ -98,15 +116,17 @@ pub fn phrases(l: L, short: bool) -> (String, String, String) {
     let s = |n| spell::spell(l, n, Var::default());
     if short {
         // thread programs: few tokens (the schedule space grows with the square of the points)
-        let ord = ordspell::ord_forms(l, 3, Var::default()).remove(0).text;
+        // rarer morphology on purpose: 22 (Dutch diaeresis connector, Italian accent), a compound ordinal
+        let ord = ordspell::ord_forms(l, 22, Var::default()).remove(0).text;
         let amb = match l {
             // the ambiguous word twice: per-text state of the ambiguity rules (counters, modes) gets exercised
             L::En => "o o".to_string(),
             L::Fr => "un neuf neuf".to_string(),
             _ => s(6),
         };
-        let p1 = format!("{} {} {} {}", s(21), l.sep(), spell_fraction(l, "05"), ord);
-        let p2 = format!("{} , {} {}", s(7), amb, s(90));
+        let p1 = format!("{} {} {} {}", s(22), l.sep(), spell_fraction(l, "05"), ord);
+        // a second, different decimal (two threads formatting different decimals at the same time)
+        let p2 = format!("{} {} {} , {} {}", s(7), l.sep(), spell_fraction(l, "3"), amb, s(90));
         return (p1, p2, s(3_456));
     }
     let ord = ordspell::ord_forms(l, 3, Var::default()).remove(0).text;
@@ -121,7 +141,7 @@ pub fn phrases(l: L, short: bool) -> (String, String, String) {
     (p1, p2, compound)
 }
 
-pub const NCALLS: usize = 10;
+pub const NCALLS: usize = 14;
 /// calls 0..SCHED_CALLS are used in thread programs; the rest are partial calls for histories
 pub const SCHED_CALLS: usize = 7;
 pub fn call_name(i: usize) -> &'static str {
@@ -136,12 +156,30 @@ pub fn call_name(i: usize) -> &'static str {
         "find_numbers_iter(P3).next() then dropped",
         "find_numbers_iter(P3).take(2) then dropped",
         "find_numbers_iter(P1).next() then dropped",
+        "replace_numbers_in_stream(four numbers)",
+        "find_numbers(ordinals 1 and 25, inflection 2)",
+        "find_numbers(ordinals 1 and 25, inflection 3)",
+        "find_numbers(ordinals 1 and 25, last inflection)",
     ][i]
 }
 /// adjacent numbers separated by nothing but spaces: when one is returned the next is already being built
 pub fn phrase3(l: L) -> String {
     let s = |n| spell::spell(l, n, Var::default());
     format!("{} {} {} {} {}", s(25), s(12), s(30), s(1), s(2))
+}
+
+/// "<1st> , <25th>" in inflection k = 0 (second form), 1 (third form), 2 (last form) of the language's ordinals
+pub fn inflected_phrase(l: L, k: usize) -> String {
+    let pick = |n: u64| -> String {
+        let forms: Vec<String> = ordspell::ord_forms(l, n, Var::default()).into_iter().map(|f| f.text).collect();
+        let idx = match k {
+            0 => 1,
+            1 => 2,
+            _ => forms.len().saturating_sub(1),
+        };
+        forms.get(idx.min(forms.len().saturating_sub(1))).cloned().unwrap_or_default()
+    };
+    format!("{} , {}", pick(1), pick(25))
 }
 
 /// One API call; every callback into harness code and both call boundaries are scheduling points.
@@ -185,10 +223,21 @@ pub fn call_on<I: LangInterpreter>(lang: &I, l: L, i: usize, short: bool) -> Str
             let it = find_numbers_iter(GIter { it: t.iter() }, lang, 0.0);
             it.take(i - 6).map(|o| Occ::of(&o).show()).collect::<Vec<_>>().join(" ")
         }
-        _ => {
+        9 => {
             let t = toks_pulled(&p1);
             let mut it = find_numbers_iter(GIter { it: t.iter() }, lang, 10.0);
             it.next().map(|o| Occ::of(&o).show()).unwrap_or_default()
+        }
+        // inflected ordinals: "<1st> , <25th>" in the second, third and last inflection the language has
+        11 | 12 | 13 => {
+            let t = toks_pulled(&inflected_phrase(l, i - 11));
+            occs_str(find_numbers(GIter { it: t.iter() }, lang, 0.0))
+        }
+        // four separate numbers: four calls of the replacement constructor in one rewriting
+        _ => {
+            let s = |n| spell::spell(l, n, Var::default());
+            let four = format!("{} , {} , {} , {}", s(1), s(2), s(3), s(4));
+            replace_numbers_in_stream(toks(&four), lang, 0.0).iter().map(|t| t.text.clone()).collect::<Vec<_>>().join(" ")
         }
     });
     sched::point();
@@ -534,14 +583,23 @@ fn schedules(ctx: &Ctx, acc: &mut Acc, l: L, tier: Tier, instrumented: bool) {
     let expected: Vec<String> = (0..NCALLS).map(|i| call_on(&l.facade(), l, i, true)).collect();
     // the interpreter shared by the threads of one execution; a fresh one for every execution
     let slot: Arc<std::sync::Mutex<Arc<ForceShare<Language>>>> = Arc::new(std::sync::Mutex::new(Arc::new(ForceShare(l.facade()))));
-    let mk = |calls: Vec<usize>| -> Body<Vec<String>> {
+    let lslot = langs::ALL.iter().position(|x| *x == l).unwrap_or(0);
+    let mk = |calls: Vec<usize>, rendezvous_of: usize| -> Body<Vec<String>> {
         let slot = slot.clone();
         Arc::new(move || {
             let sh = slot.lock().unwrap().clone();
-            calls.iter().map(|&c| call_on(&sh.0, l, c, true)).collect()
+            if rendezvous_of > 0 {
+                RV.with(|r| r.set(Some((lslot, rendezvous_of))));
+            }
+            let out = calls.iter().map(|&c| call_on(&sh.0, l, c, true)).collect();
+            RV.with(|r| r.set(None));
+            out
         })
     };
-    let reset = || *slot.lock().unwrap() = Arc::new(ForceShare(l.facade()));
+    let reset = || {
+        *slot.lock().unwrap() = Arc::new(ForceShare(l.facade()));
+        RV_ARRIVED[lslot].store(0, std::sync::atomic::Ordering::SeqCst);
+    };
     // the instrumented build has many more scheduling points per call: fewer programs, same bounds
     // (program, preemption bound): all ordered pairs at bound 1; a core of pairs at bound 2 (thorough);
     // two calls per thread and three threads at bound 1
@@ -558,6 +616,34 @@ fn schedules(ctx: &Ctx, acc: &mut Acc, l: L, tier: Tier, instrumented: bool) {
         for &a in core {
             for &b in core {
                 programs.push((vec![vec![a], vec![b]], 2));
+            }
+        }
+    }
+    // three threads making the same call (lost wake-ups, initialisation races need more than one waiter), and the
+    // rewriting of four numbers by two threads whose constructors wait for each other (program 10 || 10)
+    programs.push((vec![vec![4], vec![4], vec![4]], 1));
+    programs.push((vec![vec![0], vec![0], vec![0]], 1));
+    if instrumented {
+        // (only where every lock of the library is under the scheduler's control: on the plain build a thread
+        // stuck on a real lock costs a time-out per schedule)
+        programs.push((vec![vec![10], vec![10]], 1));
+    }
+    // inflected ordinals against each other and against the two base phrases (distinct phrases only)
+    {
+        let mut cs: Vec<usize> = vec![0, 1];
+        let mut seen: Vec<String> = vec![];
+        for k in 0..3 {
+            let p = inflected_phrase(l, k);
+            if !seen.contains(&p) {
+                seen.push(p);
+                cs.push(11 + k);
+            }
+        }
+        for &a in &cs {
+            for &b in &cs {
+                if a >= 11 || b >= 11 {
+                    programs.push((vec![vec![a], vec![b]], 1));
+                }
             }
         }
     }
@@ -579,7 +665,8 @@ fn schedules(ctx: &Ctx, acc: &mut Acc, l: L, tier: Tier, instrumented: bool) {
         }
     }
     for (prog, bound) in programs {
-        let bodies: Vec<Body<Vec<String>>> = prog.iter().map(|c| mk(c.clone())).collect();
+        let rv = if prog.len() == 2 && prog.iter().all(|c| c == &vec![10usize]) { 2 } else { 0 };
+        let bodies: Vec<Body<Vec<String>>> = prog.iter().map(|c| mk(c.clone(), rv)).collect();
         let name = prog.iter().enumerate().map(|(t, cs)| format!("T{t}: {}", cs.iter().map(|&c| call_name(c)).collect::<Vec<_>>().join(", "))).collect::<Vec<_>>().join(" || ");
         let mut outcomes: std::collections::BTreeSet<String> = Default::default();
         let mut bad: Vec<(Vec<usize>, String)> = vec![];
@@ -593,6 +680,20 @@ fn schedules(ctx: &Ctx, acc: &mut Acc, l: L, tier: Tier, instrumented: bool) {
                     }
                 }
             }
+            // afterwards the shared interpreter still answers like a fresh one (state damaged by the concurrent
+            // phase — a lost update, a half-built cache — shows in the next, sequential, calls)
+            let sh = slot.lock().unwrap().clone();
+            let mut seen: Vec<usize> = vec![];
+            for &c in prog.iter().flatten() {
+                if seen.contains(&c) {
+                    continue;
+                }
+                seen.push(c);
+                let got = call_on(&sh.0, l, c, true);
+                if got != expected[c] {
+                    bad.push((choices.to_vec(), format!("after the threads have finished, {} on the same interpreter = {got}   (expected {})", call_name(c), expected[c])));
+                }
+            }
         });
         acc.states += ex.executions;
         acc.transitions += ex.executions * ex.max_points as u64;
@@ -600,6 +701,7 @@ fn schedules(ctx: &Ctx, acc: &mut Acc, l: L, tier: Tier, instrumented: bool) {
         acc.count("schedules_infeasible", ex.infeasible);
         acc.count("schedules_with_a_blocked_thread_left_loose", ex.overlapped);
         acc.count("schedules_given_up_because_a_prefix_could_not_be_replayed", ex.diverged);
+        acc.count("programs_cut_short_after_five_timeouts", ex.gave_up as u64);
         for d in ex.deadlocks.iter().take(1) {
             ctx.report(acc, Violation {
                 lang: l.code().into(),
